@@ -57,11 +57,16 @@ def box_rule(sx, B):
     sx.assume(have_struct or have_box or have_dens, "one of input structure box, -box, -dens is given")
     top = _FakeTopology(sbox, [])
     rec = {}
+    # the numeric options, each an arbitrary (symbolic) value, and the flag
+    opts = dict(bfudge=sx.real("bfudge", 0, None, lo_strict=True), step_fudge=sx.real("step_fudge", 0, None, lo_strict=True),
+                max_force=sx.real("max_force", 0, None, lo_strict=True), grid_spacing=sx.real("grid_spacing", 0, None, lo_strict=True),
+                maxiter=sx.int("maxiter", 1, 10 ** 6), nrewind=sx.int("nrewind", 1, 100), skip_filter=sx.sel("skip_filter", [False, True]))
 
     class FakeBuild:
         def __init__(self, topology, start_dict, density, box, **kw):
             rec["build_box"] = box
             rec["build_density"] = density
+            rec["build_kw"] = dict(kw)
             rec["order"] = list(topology.calls)
             # the real builder settles the final box and stores it on the topology
             final = box if box is not None else np.array([sx.real("cubic_edge", 0, None, lo_strict=True)] * 3, dtype=object)
@@ -82,13 +87,15 @@ def box_rule(sx, B):
             top.calls.append("split_ligands")
 
     class Templ(FakeProc):
-        pass
+        def __init__(self, *a, **k):
+            rec["templates_kw"] = dict(k)
 
     class Lig(FakeProc):
         pass
 
     class Back(FakeProc):
-        pass
+        def __init__(self, *a, **k):
+            rec["backmap_args"] = (a, dict(k))
 
     def fake_write_gro(system, outpath, precision=7, title="", box=None, **kw):
         rec["written_box"] = box
@@ -115,7 +122,8 @@ def box_rule(sx, B):
     with patched(gc, Topology=FakeTopCls, GenerateTemplates=Templ, AnnotateLigands=Lig, BuildSystem=FakeBuild, Backmap=Back,
                  vermouth=FakeVermouth, DeferredFileWriter=FakeWriter, load_build_files=lambda *a, **k: top.calls.append("buildfile"),
                  _check_molecules=lambda m: top.calls.append("gate")):
-        gc.gen_coords(toppath="t.top", outpath="o.gro", name="x", coordpath="c.gro" if have_struct else None, density=dens, box=obox)
+        gc.gen_coords(toppath="t.top", outpath="o.gro", name="x", coordpath="c.gro" if have_struct else None, density=dens, box=obox,
+                      **opts)
     got = rec["build_box"]
     if have_struct:
         sx.cover("input structure box")
@@ -137,6 +145,14 @@ def box_rule(sx, B):
     want_order = ["preprocess", "gate"] + (["positions"] if have_struct else []) + ["buildfile", "Templ", "Lig", "build", "split_ligands", "Back", "convert", "write", "flush"]
     sx.claim(calls == want_order, "stages run in order and the output is written last", lambda: repr(calls))
     sx.claim(rec["written_system"] == "SYSTEM", "the system written is the topology's")
+    # every option reaches the stage it configures
+    a, k = rec["backmap_args"]
+    got_f = k.get("fudge_coords", a[0] if a else None)
+    sx.claim(got_f is not None and got_f == opts["bfudge"], "the backmapping factor given to gen_coords is the one the backmapping stage uses")
+    for name in ("step_fudge", "max_force", "grid_spacing", "maxiter", "nrewind"):
+        v = rec["build_kw"].get(name)
+        sx.claim(v is not None and v == opts[name], "option %s reaches the system builder" % name)
+    sx.claim(rec["templates_kw"].get("skip_filter") is opts["skip_filter"], "option skip_filter reaches the template generator")
 
 
 MASS_MOLS = {"MA": [("A", ["a1", "a2"])], "MB": [("B", ["b1"])]}
